@@ -40,6 +40,13 @@ def run(v, tier, seed):
             for c2 in chain_points:
                 after = [("conn", 1), ("dump",)] + phase(7) + [("flush", c2), ("restart",), ("dump",), ("fs",), ("conn", 1), ("dump",)] + phase(8) + [("flush", -1), ("restart",), ("dump",)]
                 cases.append((f"h{n}", history(nflush, c1, after))); n += 1
+    # the state RETURNS to what an earlier flush into the same slot wrote (same bytes): flush A into X, flush B into Y, flush C
+    # into X dying at every crash point, restart, back to A, flush (into X again), restart -- must recover A
+    for c in range(NPOINTS):
+        for withreg in (False, True):
+            def st(i): return [("set", 1, "k", i)] + ([("set", 1, gg(1), [f"g{i}/#"]), ("set", 1, lw(1), [["w", i]])] if withreg else [])
+            ops = [("conn", 1), ("dump",)] + st(1) + [("flush", -1)] + st(2) + [("flush", -1)] + st(3) + [("flush", c), ("restart",), ("dump",), ("fs",), ("conn", 1), ("dump",)] + st(1) + [("flush", -1), ("restart",), ("dump",), ("fs",)]
+            cases.append((f"h{n}", ops)); n += 1
     # kill outside a flush, empty directory, restart twice
     cases.append((f"h{n}", [("restart",), ("dump",), ("fs",), ("conn", 1), ("dump",)] + phase(1) + [("restart",), ("dump",), ("restart",), ("dump",), ("fs",)])); n += 1
     rnd = random.Random(seed)
@@ -78,5 +85,5 @@ def run(v, tier, seed):
                      "ops": [R(o) for o in ops[:step + 1]], "step": step, "impl": decode_tok(x)[:1500], "model": decode_tok(y)[:1500], "disagreeing_cases": len(diffs),
                      "broken_obligation": "correspondence persist/C10 (Model/Persist.v flush, load)"}, no_input=True)
     v.cov.update({"evaluations": ncases, "distinct_nontrivial": len(nontrivial), "steps": nsteps, "disagreements": len(diffs), "simulated_crashes": crashes,
-                  "rule": f"histories of 1..{maxf} flushes with distinct store and registrations, the last one dying at every crash point (4 files x before-tmp/torn-tmp/tmp-written/renamed, + after the selector flip: {NPOINTS} points, complete enumeration) or completing; chains crash -> restart -> flush -> crash -> restart -> flush -> restart over pairs of crash points; kill outside a flush; {nrand} random multi-flush histories; after every restart the store dump (oracle: = recover(last completed) or recover(in progress)) and the directory listing (file contents, checksum validity, leftovers) are compared with the model; non-trivial = at least one simulated crash",
+                  "rule": f"histories of 1..{maxf} flushes with distinct store and registrations, the last one dying at every crash point (4 files x before-tmp/torn-tmp/tmp-written/renamed, + after the selector flip: {NPOINTS} points, complete enumeration) or completing; chains crash -> restart -> flush -> crash -> restart -> flush -> restart over pairs of crash points; histories whose state returns to the content an earlier flush wrote into the same slot, around a crash at every point; kill outside a flush; {nrand} random multi-flush histories; after every restart the store dump (oracle: = recover(last completed) or recover(in progress)) and the directory listing (file contents, checksum validity, leftovers) are compared with the model; non-trivial = at least one simulated crash",
                   "samples": samples, "exhaustive": True, "crash_model": "process crash: completed file operations persist in order; a write in flight leaves the first half of the data (hook crash_point in v3.rs); power-loss reordering is outside the model"})
